@@ -13,6 +13,9 @@ package verifharness
 //       hook return, is the resulting state the state of "this unit contributed nothing" (= the
 //       state after failing the unit at its first access) / the fault-free state / something else,
 //       and were all the other units still started.
+//  (iii) error injection (c15_err_test.go): reachable states in which a unit RETURNS AN ERROR after it
+//       has written; the unit's ApplyFuncIfNoError instance must have contributed nothing, every other
+//       unit everything.
 
 import (
 	"fmt"
